@@ -40,6 +40,15 @@ func (prefixConcEngine) Gen(rng *rand.Rand, tier string, i int) any {
 	sh := [][2]int{{62, 64}, {61, 64}, {60, 64}, {64, 64}, {122, 124}, {63, 65}}[rng.Intn(6)]
 	c := &prefixConcCase{Pool: genPool(rng, sh[0]), Alloc: sh[1], Clients: 1 + rng.Intn(5), Seed: rng.Int63()}
 	c.Kind = []string{"same-client", "distinct", "mixed", "mixed", "fresh-mixed"}[rng.Intn(5)]
+	if c.Kind == "fresh-mixed" {
+		// many clients, each new in its own burst; a pool large enough for all of them
+		sh = [][2]int{{54, 64}, {118, 128}, {53, 63}}[rng.Intn(3)]
+		c.Pool, c.Alloc, c.Clients = genPool(rng, sh[0]), sh[1], 80
+		for b := 0; b < c.Clients; b++ {
+			c.Bursts = append(c.Bursts, 5+rng.Intn(5))
+		}
+		return c
+	}
 	total := 0
 	for b := 0; b < 2+rng.Intn(3) && total < 40; b++ {
 		k := 2 + rng.Intn(11)
